@@ -1,10 +1,271 @@
 (** C09 - Tax-scale transformations preserve the amounts they are meant to preserve.
-    Only statements here; proofs are in proofs/ScaleC09*.v. *)
-From Coq Require Import ZArith QArith Qminmax List Bool.
-From Verif Require Import Base Scale ScaleOps ScaleC09Proofs.
+
+    Only statements here; proofs are in proofs/ScaleC09*.v.  The functions are the ones of
+    model/Scale.v (section "Transformations") and model/ScaleOps.v, which the correspondence
+    check (corr/Corr_C09.v) runs against the real classes.
+
+    [calc s b] is MarginalRateTaxScale.calc on the one-element vector [b] with the threshold
+    shift eps = 0 (ScaleOps.calc); [calc_is_vector] relates it to the vector function.
+    A scale is sorted when its thresholds are strictly increasing (what add_bracket
+    maintains): [StronglySorted Qlt (thresholds s)]. *)
+From Coq Require Import ZArith QArith Qminmax List Bool Sorted.
+From Verif Require Import Base Scale ScaleOps ScaleProofs ScaleC09Proofs ScaleC09Combine
+     ScaleC09Average ScaleC09Inverse.
 Import ListNotations.
 Open Scope Q_scope.
+
+(** the vector calc without rounding, factor 1, eps 0, is [calc] base by base *)
+Theorem calc_is_vector : forall s bases,
+  Forall2 Qeq (calc_marginal 0 1 None s bases) (map (calc s) bases).
+Proof. exact calc_vector. Qed.
+Print Assumptions calc_is_vector.
+
+(** [calc] is the mathematical definition (C08): sum of rate * length of the part of the
+    bracket below the base *)
+Theorem calc_is_definition : forall s b, calc s b == marginal_tax b s.
+Proof. exact calc_marginal_tax. Qed.
+Print Assumptions calc_is_definition.
+
+(* ------------------------------------------------------------------------- *)
+(** * Combining scales adds their taxes                                        *)
+(* ------------------------------------------------------------------------- *)
+
+(** self.add_tax_scale(other): any sorted receiver (empty or not, any thresholds), any
+    sorted [other] with non-negative thresholds, any base *)
+Theorem combine_adds_taxes : forall s1 s2 b,
+  StronglySorted Qlt (thresholds s1) ->
+  StronglySorted Qlt (thresholds s2) -> Forall (fun t => 0 <= t) (thresholds s2) ->
+  calc (add_tax_scale s1 s2) b == calc s1 b + calc s2 b.
+Proof. exact add_tax_scale_calc. Qed.
+Print Assumptions combine_adds_taxes.
+
+(** the combined scale is again sorted, so the law can be iterated: sequences *)
+Theorem combine_sequence_adds_taxes : forall others self b,
+  StronglySorted Qlt (thresholds self) ->
+  Forall (fun o => StronglySorted Qlt (thresholds o) /\ Forall (fun t => 0 <= t) (thresholds o)) others ->
+  StronglySorted Qlt (thresholds (add_tax_scales self others))
+  /\ calc (add_tax_scales self others) b == calc self b + calc_sum others b.
+Proof. exact add_tax_scales_calc. Qed.
+Print Assumptions combine_sequence_adds_taxes.
+
+(** helpers.combine_tax_scales over a non-empty node: the marginal-rate children are
+    added to the given scale, or to the scale [(0, 0)] (which taxes nothing) *)
+Theorem combine_tax_scales_adds_taxes : forall node combined b,
+  node <> [] ->
+  match combined with Some c => StronglySorted Qlt (thresholds c) | None => True end ->
+  Forall (fun o => StronglySorted Qlt (thresholds o) /\ Forall (fun t => 0 <= t) (thresholds o))
+         (marginal_children node) ->
+  exists r, combine_tax_scales node combined = Some r
+            /\ StronglySorted Qlt (thresholds r)
+            /\ calc r b == match combined with Some c => calc c b | None => 0 end
+                           + calc_sum (marginal_children node) b.
+Proof. exact combine_tax_scales_calc. Qed.
+Print Assumptions combine_tax_scales_adds_taxes.
+
+Theorem combine_tax_scales_empty_node : forall combined, combine_tax_scales [] combined = combined.
+Proof. exact combine_tax_scales_empty. Qed.
+Print Assumptions combine_tax_scales_empty_node.
+
+(* ------------------------------------------------------------------------- *)
+(** * Inverse                                                                  *)
+(* ------------------------------------------------------------------------- *)
+
+(** a sorted scale starting at threshold 0 with all rates below one has an inverse, which
+    maps the net amount of every gross amount g >= 0 back to g *)
+Theorem inverse_roundtrip : forall t0 r0 rest g,
+  StronglySorted Qlt (thresholds ((t0, r0) :: rest)) ->
+  t0 == 0 ->
+  Forall (fun r => r < 1) (rates ((t0, r0) :: rest)) ->
+  0 <= g ->
+  exists inv, inverse ((t0, r0) :: rest) = Ok inv
+              /\ calc inv (g - calc ((t0, r0) :: rest) g) == g.
+Proof. exact inverse_roundtrip_calc. Qed.
+Print Assumptions inverse_roundtrip.
+
+(* ------------------------------------------------------------------------- *)
+(** * Scaling thresholds and rates                                             *)
+(* ------------------------------------------------------------------------- *)
+
+(** any scale (sorted or not), any base, any factor >= 0, no rounding of the thresholds.
+    (A negative factor reverses the order of the thresholds and the law is false: see
+    [scale_thresholds_negative_factor].) *)
+Theorem scale_thresholds_law : forall f s b, 0 <= f ->
+  calc (multiply_thresholds f None s) (f * b) == f * calc s b.
+Proof. exact scale_thresholds_calc. Qed.
+Print Assumptions scale_thresholds_law.
+
+(** any scale, base and factor *)
+Theorem scale_rates_law : forall f s b, calc (multiply_rates f s) b == f * calc s b.
+Proof. exact scale_rates_calc. Qed.
+Print Assumptions scale_rates_law.
+
+(* ------------------------------------------------------------------------- *)
+(** * Average rates and back; copy                                             *)
+(* ------------------------------------------------------------------------- *)
+
+(** every non-empty sorted scale with non-negative thresholds can be converted to average
+    rates and back, and the result taxes every base identically.  (For the empty scale
+    to_marginal is rejected: [average_marginal_empty_rejected].) *)
+Theorem average_marginal_roundtrip : forall s b,
+  s <> [] -> StronglySorted Qlt (thresholds s) -> Forall (fun t => 0 <= t) (thresholds s) ->
+  exists m, average_then_marginal s = Ok m /\ calc m b == calc s b.
+Proof. exact average_marginal_roundtrip_calc. Qed.
+Print Assumptions average_marginal_roundtrip.
+
+Theorem average_marginal_empty_rejected : average_then_marginal [] = Err EOther.
+Proof. exact average_marginal_empty. Qed.
+Print Assumptions average_marginal_empty_rejected.
 
 Theorem copy_same : forall s b, calc (returned (copy_call s)) b = calc s b.
 Proof. exact copy_same_calc. Qed.
 Print Assumptions copy_same.
+
+(* ------------------------------------------------------------------------- *)
+(** * None of the non-in-place operations alters its argument                  *)
+(* ------------------------------------------------------------------------- *)
+(** The list functions are pure; what a *call* does to [self] is modelled by the [call]
+    records of ScaleOps.v and compared with the real objects (before / after) by the
+    correspondence check. *)
+
+Theorem multiply_rates_leaves_argument : forall f inplace s,
+  exists c, multiply_rates_call f inplace false s = Ok c
+            /\ returned c = multiply_rates f s
+            /\ aliased c = inplace
+            /\ self_after c = (if inplace then multiply_rates f s else s).
+Proof. exact multiply_rates_call_spec. Qed.
+Print Assumptions multiply_rates_leaves_argument.
+
+Theorem multiply_thresholds_leaves_argument : forall f d inplace s,
+  exists c, multiply_thresholds_call f d inplace false s = Ok c
+            /\ returned c = multiply_thresholds f d s
+            /\ aliased c = inplace
+            /\ self_after c = (if inplace then multiply_thresholds f d s else s).
+Proof. exact multiply_thresholds_call_spec. Qed.
+Print Assumptions multiply_thresholds_leaves_argument.
+
+Theorem scale_tax_scales_leaves_argument : forall f s,
+  exists c, scale_tax_scales_call f s = Ok c
+            /\ returned c = multiply_thresholds f None s /\ aliased c = false /\ self_after c = s.
+Proof. exact scale_tax_scales_call_spec. Qed.
+Print Assumptions scale_tax_scales_leaves_argument.
+
+Theorem copy_leaves_argument : forall s,
+  self_after (copy_call s) = s /\ returned (copy_call s) = s.
+Proof. exact copy_leaves_self. Qed.
+Print Assumptions copy_leaves_argument.
+
+(* ------------------------------------------------------------------------- *)
+(** * Non-vacuity: the hypotheses are satisfiable and the laws say something   *)
+(* ------------------------------------------------------------------------- *)
+
+Definition sA : scale := [(0, 1 # 10); (10, 2 # 10); (20, 3 # 10)].
+Definition sB : scale := [(5, 1 # 4); (10, 1 # 8); (30, 1 # 2)].
+
+Example sA_sorted : StronglySorted Qlt (thresholds sA).
+Proof. cbn. repeat constructor. Qed.
+Example sB_sorted : StronglySorted Qlt (thresholds sB).
+Proof. cbn. repeat constructor. Qed.
+Example sB_nonneg : Forall (fun t => 0 <= t) (thresholds sB).
+Proof. cbn. repeat constructor; discriminate. Qed.
+
+(** interleaved thresholds, one shared; the result has 5 brackets; base 25 is taxed
+    4.5 + (5*0.25 + 15*0.125) = 7.625 *)
+Example combine_adds_taxes_ex : calc (add_tax_scale sA sB) 25 == 61 # 8.
+Proof. rewrite (combine_adds_taxes sA sB 25 sA_sorted sB_sorted sB_nonneg). reflexivity. Qed.
+
+Example combine_structure_ex :
+  map (fun tr => (Qred (fst tr), Qred (snd tr))) (add_tax_scale sA sB)
+  = [(0, 1 # 10); (5, 7 # 20); (10, 13 # 40); (20, 17 # 40); (30, 4 # 5)].
+Proof. vm_compute. reflexivity. Qed.
+
+(** the F5 layout: the other's first threshold is below all of self's *)
+Example combine_other_first_below_ex :
+  map (fun tr => (Qred (fst tr), Qred (snd tr))) (add_tax_scale [(10, 1 # 10)] [(0, 2 # 10)])
+  = [(0, 1 # 5); (10, 3 # 10)]
+  /\ Qred (calc (add_tax_scale [(10, 1 # 10)] [(0, 2 # 10)]) 5) = 1.
+Proof. split; vm_compute; reflexivity. Qed.
+
+(** empty receiver *)
+Example combine_empty_receiver_ex :
+  map (fun tr => (Qred (fst tr), Qred (snd tr))) (add_tax_scale [] sB) = sB
+  /\ calc (add_tax_scale [] sB) 20 == calc sB 20.
+Proof. split; vm_compute; reflexivity. Qed.
+
+Example combine_tax_scales_ex :
+  exists r, combine_tax_scales [Some sA; None; Some sB] None = Some r
+            /\ calc r 25 == 61 # 8.
+Proof.
+  destruct (combine_tax_scales_adds_taxes [Some sA; None; Some sB] None 25) as [r [H1 [_ H2]]].
+  - discriminate.
+  - exact I.
+  - repeat constructor; discriminate.
+  - exists r. split; [exact H1|]. rewrite H2. vm_compute. reflexivity.
+Qed.
+
+(** inverse: rates 10%, 20%, 30%: gross 25 pays 4.5, net 20.5, and 20.5 is mapped back to 25 *)
+Example inverse_roundtrip_ex :
+  exists inv, inverse sA = Ok inv
+              /\ map (fun tr => (Qred (fst tr), Qred (snd tr))) inv = [(0, 10 # 9); (9, 5 # 4); (17, 10 # 7)]
+              /\ calc inv ((41 # 2)) == 25.
+Proof. eexists. split; [reflexivity|]. split; vm_compute; reflexivity. Qed.
+
+Example inverse_hypotheses_ex :
+  StronglySorted Qlt (thresholds sA) /\ 0 == 0 /\ Forall (fun r => r < 1) (rates sA) /\ 0 <= 25.
+Proof. split; [exact sA_sorted|]. split; [reflexivity|]. split; [|discriminate]. cbn. repeat constructor. Qed.
+
+(** inverse is rejected when the first threshold is not 0 or a rate is 1 *)
+Example inverse_rejected_ex :
+  inverse [(5, 1 # 10)] = Err EOther /\ inverse [(0, 1)] = Err EOther.
+Proof. split; reflexivity. Qed.
+
+Example scale_thresholds_ex :
+  Qred (calc (multiply_thresholds (3 # 2) None sA) ((3 # 2) * 25)) = Qred ((3 # 2) * calc sA 25)
+  /\ Qred (calc sA 25) = 9 # 2.
+Proof. split; vm_compute; reflexivity. Qed.
+
+(** with a negative factor the law is false *)
+Example scale_thresholds_negative_factor :
+  ~ calc (multiply_thresholds (-1) None [(0, 1 # 10)]) (-1 * 5) == -1 * calc [(0, 1 # 10)] 5.
+Proof. vm_compute. discriminate. Qed.
+
+Example scale_rates_ex :
+  Qred (calc (multiply_rates (-2) sA) 25) = -9 /\ Qred (calc sA 25) = 9 # 2.
+Proof. split; vm_compute; reflexivity. Qed.
+
+(** first threshold 0: the round trip gives the scale back; first threshold 5 > 0: a
+    bracket (0, 0) is put in front (F6 repair), the taxes are the same *)
+Example average_marginal_ex :
+  (exists m, average_then_marginal sA = Ok m
+             /\ map (fun tr => (Qred (fst tr), Qred (snd tr))) m = [(0, 1 # 10); (10, 1 # 5); (20, 3 # 10)])
+  /\ (exists m, average_then_marginal sB = Ok m
+                /\ map (fun tr => (Qred (fst tr), Qred (snd tr))) m
+                   = [(0, 0); (5, 1 # 4); (10, 1 # 8); (30, 1 # 2)]
+                /\ calc m 40 == calc sB 40).
+Proof.
+  split.
+  - eexists. split; [reflexivity|]. vm_compute. reflexivity.
+  - eexists. split; [reflexivity|]. split; vm_compute; reflexivity.
+Qed.
+
+(** one-bracket scale (F6: used to crash) *)
+Example average_marginal_one_bracket_ex :
+  exists m, average_then_marginal [(0, 1 # 4)] = Ok m /\ calc m 8 == 2.
+Proof. eexists. split; [reflexivity|]. vm_compute. reflexivity. Qed.
+
+Example to_average_ex :
+  to_average sA = Ok [(Fin 0, 0); (Fin 10, (0 + (1 # 10) * (10 - 0)) / 10);
+                      (Fin 20, (0 + (1 # 10) * (10 - 0) + (2 # 10) * (20 - 10)) / 20); (Inf, 3 # 10)].
+Proof. reflexivity. Qed.
+
+Example non_inplace_ex :
+  (exists c, multiply_thresholds_call 2 None false false sA = Ok c /\ self_after c = sA
+             /\ returned c <> sA /\ aliased c = false)
+  /\ (exists c, multiply_thresholds_call 2 None true false sA = Ok c /\ self_after c = returned c
+                /\ aliased c = true)
+  /\ multiply_rates_call 2 true true sA = Err EOther.
+Proof.
+  split; [|split].
+  - eexists. split; [reflexivity|]. split; [reflexivity|]. split; [discriminate|reflexivity].
+  - eexists. split; [reflexivity|]. split; reflexivity.
+  - reflexivity.
+Qed.
